@@ -202,6 +202,44 @@ def py_oracle(d):
     return out, unknown
 
 
+RECORD_LAYER_LISTS = ['aes128Suites', 'aes256Suites', 'aes128GcmSuites', 'aes256GcmSuites', 'aes128CcmSuites',
+                      'aes256CcmSuites', 'aes128Ccm_8Suites', 'aes256Ccm_8Suites', 'chacha20Suites', 'chacha20draft00Suites',
+                      'tripleDESSuites', 'rc4Suites', 'nullSuites', 'shaSuites', 'sha256Suites', 'sha384Suites', 'md5Suites',
+                      'aeadSuites', 'streamSuites', 'sha384PrfSuites', 'sha256PrfSuites', 'ssl3Suites', 'tls12Suites', 'tls13Suites']
+CIPHER_LISTS, VERSION_LISTS = RECORD_LAYER_LISTS[:13], RECORD_LAYER_LISTS[-3:]
+
+
+def static_defects(d):
+    """beyond the property: EVERY known id with a registered meaning (negotiable or not) whose record-layer
+    settings, accessor names or membership in the lists the record layer / key derivation / version filter
+    consult deviate from its name.  -> {sid: [reasons]}  (twin of Model/C20_Classify.v chk_static)"""
+    out = {}
+    for sid in d['all']:
+        m = iana.meaning(sid)
+        if m is None:
+            continue
+        r, why = d['rows'][sid], []
+        cs = r['cipher_settings']
+        if cs is None or (cs[0], cs[2]) != (m['keylen'], FACTORY[m['cipher']]) or (not m['draft'] and cs[1] != m['fixed_iv']):
+            why.append('_getCipherSettings %s' % ('raises' if cs is None else 'gives %r' % (cs,)))
+        if r['mac_settings'] != (m['maclen'], DIGEST[m['mac']]):
+            why.append('_getMacSettings %s' % ('raises AssertionError' if r['mac_settings'] is None else 'gives %r' % (r['mac_settings'],)))
+        if r['canon_cipher'] != iana.lib_cipher_name(m):
+            why.append('canonicalCipherName = %r' % r['canon_cipher'])
+        if not iana.mac_name_agrees(m, r['canon_mac']):
+            why.append('canonicalMacName = %r' % r['canon_mac'])
+        for ln in RECORD_LAYER_LISTS:
+            if ln in d['lists'] and (sid in d['lists'][ln]) != bool(LIST_SEM[ln](m)):
+                why.append('%s %s' % ('in' if sid in d['lists'][ln] else 'not in', ln))
+        for nm, group in (('cipher', CIPHER_LISTS), ('MAC', MAC_LISTS), ('version', VERSION_LISTS)):
+            k = sum(1 for ln in group if sid in d['lists'].get(ln, ()))
+            if k != 1:
+                why.append('in %d %s lists' % (k, nm))
+        if why:
+            out[sid] = why
+    return out
+
+
 # ------------------------------------------------------------------------------------------
 def ostr(x):
     return optlit(x, vlib.strlit)
@@ -428,6 +466,21 @@ def run(ctx):
         for k in unknown:
             tie_broken = tie_broken or ('CipherSuite.%s has no stated meaning in Model/C20_Classify.v list_semantics' % k)
         ctx.log('direct oracle: %d negotiable pairs, %d deviations' % (len(neg), len(viols)))
+        # ---- table defects on ids that cannot be negotiated: recorded, and tied to the Coq evaluation --------
+        sd = static_defects(d)
+        ctx.count('static-classification(all known ids)', len([x for x in d['all'] if iana.meaning(x)]), [('defects', len(sd))])
+        for sid, why in sorted(sd.items()):
+            if any((sid, vi) in neg for vi in range(5)):
+                continue        # negotiable: already a violation above
+            ctx.notes.append('table defect on a never-negotiable id (recorded, not a C20 violation): 0x%04X %s: %s'
+                             % (sid, iana.name_of(sid), '; '.join(why)))
+        if res['model_ok'] and tie_broken is None:
+            import re
+            rc, out_ = vlib.coq_eval('C20s', ['Gen.Suites', 'Spec.Iana', 'Model.C20_Classify'], ['static_defects'])
+            mm = re.search(r'=\s*\[(.*?)\]\s*:\s*list Z', out_, flags=re.S)
+            coq_sd = sorted(int(x) for x in re.findall(r'\d+', mm.group(1))) if (rc == 0 and mm) else None
+            if coq_sd != sorted(sd):
+                tie_broken = 'static_defects: Coq %r vs Python twin %r' % (coq_sd, sorted(sd))
         # ---- registry cross-checks -----------------------------------------------------------
         for sid in d['all']:
             lib, mine = d['ietf'].get(sid), iana.name_of(sid)
